@@ -2,14 +2,14 @@
 """Writes /verif/MANIFEST.json from the table below (kept in one place so that it stays valid)."""
 import json, os, subprocess
 ROOT = os.path.dirname(os.path.dirname(os.path.abspath(__file__)))
-hooks_commits = ["54f3e88", "282fbb2", "529567f"]
+hooks_commits = ["54f3e88", "282fbb2", "529567f", "3de4184"]
 CHECKS = {
  # id: (category, technique, text, note, design_ref)
  "C04": ("exploration", "runtime monitoring: independent reference controller (refctl) verifying every proof/signature/key against a real transport",
          "Per configuration a real IP transport is started and an independently written controller performs a wrong-code attempt, full pair-setup (server proof, M6 decryption, accessory signature verified), pair-verify (M2 verified) and encrypted requests of one to many frames with three frame-split policies; held on the configurations executed (100 quick / 3000 thorough); every third configuration pairs again under the same identifier with a new key pair and verifies with it.",
          "trusted base: Go runtime, x/crypto primitives, crypto/ed25519, refctl (self-tested against RFC 5869, RFC 3526 prime formula, own SRP server); SRP numbers in minimal-length encoding like hc", "DESIGN.md §5 C04"),
  "C05": ("exploration", "runtime monitoring: enumerated stream alterations against a frame-prefix oracle, directly on Decrypt and through hap.Connection over a scripted net.Conn",
-         "Every single-bit flip, every truncation offset, every permutation/duplication/deletion of frames, reflection, cross-session and cross-counter replays, forged frames (length field 0, 1, 16, 17, 1024) inserted at and substituted for every frame of reference-framed streams at several counter positions; oracle: released plaintext is an unmodified frame prefix and an error (or a closed connection) is reported once the altered frame has arrived.",
+         "Every single-bit flip, every truncation offset, every permutation/duplication/deletion of frames, reflection, cross-session and cross-counter replays, forged frames (length field 0, 1, 16, 17, 1024) inserted at and substituted for every frame of reference-framed streams; after the first error the caller renews / clears its deadlines and keeps reading at several counter positions; oracle: released plaintext is an unmodified frame prefix and an error (or a closed connection) is reported once the altered frame has arrived.",
          "trusted base: x/crypto chacha20poly1305, refctl framing", "DESIGN.md §5 C05"),
  "C06": ("exploration", "runtime monitoring: byte-identity with an independent reference framing, differential decrypt both ways, reader-mode fuzzing",
          "hc's Encrypt output must equal the reference framing byte for byte (pins frame size, length encoding, nonce layout, key labels, AAD, counter continuity) for all payload lengths 0..1100 + boundaries (quick) / 0..4097 exhaustively + sampled to 64 KiB (thorough), 8 reader modes, sequences of messages; long sessions across the 2^8 / 2^16 (thorough 2^17, 2^20) frame-counter boundaries; full-duplex use of one session; queued use (several results sealed / opened before any is read out, caller buffers reused).",
@@ -27,7 +27,7 @@ CHECKS = {
          "All tags 0..255, all lengths 0..1024 for several tags, long values to 70000 bytes, sequences of sets with repeated/interleaved tags, the caller overwrites its buffer right after every SetBytes; parser inputs: exhaustive tiny inputs, random, every truncation and length-byte mutation of valid encodings.",
          "trusted base: refctl TLV8 codec (self-tested)", "DESIGN.md §5 C16"),
  "C18": ("exploration", "runtime monitoring: model-based history checking (map model) with in-process and child-process reopen, witness shrinking",
-         "Generated histories of Set/Get/Delete/KeysWithSuffix and SaveEntity/EntityWithName/DeleteEntity/Entities over few keys with values 0..4096 bytes biased to shorter/longer overwrites, arbitrary-byte entity names, reopen between segments (real child processes for a subset); shorter overwrites that are aligned proper prefixes; the caller overwrites every buffer it passed in once the call returned, overwrites or keeps (and re-checks after later operations) what it got back.",
+         "Generated histories of Set/Get/Delete/KeysWithSuffix and SaveEntity/EntityWithName/DeleteEntity/Entities over few keys with values 0..4096 bytes biased to shorter/longer overwrites, arbitrary-byte entity names, reopen between segments (real child processes for a subset); shorter overwrites that are aligned proper prefixes; the caller overwrites every buffer it passed in once the call returned, overwrites or keeps (and re-checks after each of the next three operations) what it got back.",
          "assumes filename-safe raw storage keys (':' aliasing is documented by hc), entity names of length >= 1", "DESIGN.md §5 C18"),
  "C19": ("fault_enumeration", "fault injection: strace SIGKILL injection at every state-changing syscall of a storage operation, read-back oracle in a fresh process",
          "For every scenario (Set old x new sizes, SaveEntity new/overwrite, DeleteEntity, Delete, NewIPTransport first start / unchanged restart / structural change) the baseline syscall trace is enumerated and the child is killed before each state-changing syscall on a fresh copy; the kill is confirmed from the trace; oracle: written key old-or-new in full, neighbours byte-identical, Entities() succeeds. Exhaustive per scenario for the syscall sequence the build under test performs. Plus a sampling scenario outside the enumeration: four goroutines writing the same keys, SIGKILL at a random moment (150 / 3000 kills), every key old-or-one-of-the-new values in full.",
@@ -51,7 +51,7 @@ CHECKS = {
          "Accessory databases built from all catalog constructors, from one accessory to a 150-accessory bridge (responses of hundreds of chunks and frames); values at bounds, non-rounding floats, hostile strings, tlv8 payloads to 5000 bytes; id lists of every length 1..60 with unknown, write-only and repeated ids; oracle: values equal after JSON/chunking/encryption, every id answered once in order with value or status, every entry of a 207 has a status and none carries a value together with an error status. Freshness phase: one change (application or a second controller) lands inside a GET /accessories of a 40-bulb bridge; reads that start after the change returned must show it through both endpoints.",
          "trusted base: refctl HTTP/chunk/frame parsing, encoding/json; PUT to an unknown id must not be answered as if applied (weak reading)", "DESIGN.md §5 C09"),
  "C11": ("exploration", "runtime monitoring: permission invariants over every catalog constructor and all 8 permission subsets x formats, in-process update API and HTTP PUT path, EVENT fences",
-         "No pw => value unchanged and no callback for ~57 hostile values; no pr => no value stored or revealed in JSON, GET, /accessories, EVENT; no ev => subscription answered with a status and a fenced local change delivers no EVENT; positive controls for ev/pw/pr characteristics.",
+         "No pw => value unchanged and no callback for ~57 hostile values; no pr => no value stored or revealed in JSON, GET, /accessories, EVENT; no ev => subscription answered with a status and a fenced local change delivers no EVENT (ev spelled true, 1, 1.0, "true", "1", [true]: the odd spellings may be ignored or refused, never followed by an EVENT); positive controls for ev/pw/pr characteristics.",
          "trusted base: refctl; permissions read literally from Perms, not through hc's helpers", "DESIGN.md §5 C11"),
  "C12": ("exploration", "runtime monitoring: type/range invariant checked after every update for hostile JSON-like value sequences over every catalog constructor and synthetic formats, in-process and through PUT",
          "88 hostile values (numbers of all magnitudes and signs, numeric and non-finite strings, bools, null, arrays, objects, repeated composites, Go-native ints/uints/float32) x local / remote / get-callback updates, pairs and random sequences; oracle after every update: Go type of the stored value matches the format, integer formats in range, within declared min/max, typed getter returns, attribute database encodes.",
@@ -60,10 +60,10 @@ CHECKS = {
          "Histories of 4..7 runs with value-only and 14 kinds of structural changes, pair / unpair / add-controller in between, in-process and child-process restarts; oracle: id, key pair and pairings stable, c# +1 iff the served database without values changed, c# == version file, sf == 1 iff no controller stored (re-checked after every pair/unpair without restart); ValidatePin on sampled (quick) / all 10^8 (thorough) codes and 20000 non-code strings; X-HM URI decoded independently for all categories x flags. Structure sweep: 3000 / 60000 distinct small structures through a six-run restart history without a started transport (content-dependent storage defects). Killed starts: a child process kills itself at the N-th storage.set.enter hook point of a start with changed / unchanged structure, followed by complete starts (c# moves by 1 or 2 after a change, not at all without one, then stays; device id constant).",
          "trusted base: refctl, VerifTXT hook (returns the live txt records), storage.set.enter hook (kill point)", "DESIGN.md §5 C20, §12.7"),
  "C10": ("exploration", "runtime monitoring: subscription-model checker over generated multi-connection histories with a fence after every operation (exact per-connection EVENT multisets), concurrent exactly-once variant, race detector",
-         "3..5 verified controllers, 2..4 accessories, histories of 40 operations (subscribe, unsubscribe, local set, remote write changing / same value, combined PUT, value+ev in one entry for a read-only characteristic, close FIN/RST, reconnect, join via /pairings); after every operation every live connection is fenced and the EVENTs received are compared with the model; closed connections checked through hc's debug log after bounded progress; concurrent writers on distinct characteristics with connection churn checked offline for exactly-once and under -race (reports filtered to notifyListener / session / context).",
+         "3..5 verified controllers, 2..4 accessories, histories of 40 operations (subscribe, unsubscribe, local set, remote write changing / same value, combined PUT, value+ev in one entry for a read-only characteristic, idle (a change, then 90 s of virtual idle time, then every connection fenced), close FIN/RST, reconnect, join via /pairings); after every operation every live connection is fenced and the EVENTs received are compared with the model; closed connections checked through hc's debug log after bounded progress; concurrent writers on distinct characteristics with connection churn checked offline for exactly-once and under -race (reports filtered to notifyListener / session / context).",
          "trusted base: refctl; hc writes EVENTs synchronously inside the changing call (the fence argument of DESIGN §3.4)", "DESIGN.md §5 C10"),
  "C13": ("exploration", "runtime monitoring: hostile-message fuzzing per protocol state against real transports in child processes; oracle = captured net/http panic log + well-formed (error) response + honest continuation on the same and on a new connection",
-         "Per case an honest prefix reaches one of six protocol states, then one hostile message of 63 classes (random bytes, structural TLV mutations of the correct next message, short / wrong-tag encrypted data, unknown steps / methods, hostile JSON, HTTP oddities, remote-address reuse) is sent; no panic line attributable to the request, a well-formed response that is an error when the message cannot be processed, and the state-appropriate honest handshake still succeeds on the same connection (at most one rejected start) and on a new one; 'no answer' by bounded progress; a dying child identifies its last logged input. Stored oddities: pairings with keys of 0..1000 bytes stored through /pairings, then pair-verify naming each.",
+         "Per case an honest prefix reaches one of six protocol states, then one hostile message of 63 classes (random bytes, structural TLV mutations of the correct next message, short / wrong-tag encrypted data, unknown steps / methods, hostile JSON, HTTP oddities, remote-address reuse) is sent; no panic line attributable to the request, a well-formed response that is an error when the message cannot be processed, and the state-appropriate honest handshake still succeeds on the same connection (at most one rejected start) and on a new one; 'no answer' by bounded progress; a dying child identifies its last logged input. Stored oddities: pairings with keys of 0..1000 bytes stored through /pairings, then pair-verify naming each. Idle periods: connections in five protocol states (one just notified) are used again after 90 s of virtual idle time (every deadline armed on an accepted connection moved into the past through the WrapConn hook).",
          "trusted base: refctl; net/http's own 400/431 answers count as well-formed; 405 demanded only on the three endpoints that dispatch on the method", "DESIGN.md §5 C13 and §12.6"),
 }
 NOT_YET = {
